@@ -3,6 +3,9 @@ import BppModel.Tree
 import BppModel.TreeRef
 import BppModel.Dag
 import BppModel.TreeObs
+import BppModel.TreeCopy
+import BppModel.TreeObsCopy
+import BppModel.DagObs
 import BppModel.Drive.C14
 /-
 Driver for C15: TreeGraphImpl on GlobalGraph (ops `t.*`), DAGraphImpl on GlobalGraph (ops `d.*`),
@@ -25,6 +28,18 @@ Verdicts on the implementation's answer `<result> ; <raw state> V <flag> [R <fla
                        make the calls on which the model itself runs out of fuel)
   no_crash             the call killed the harness worker (sanitizer abort, stack overflow, signal)
   rooted_cache         the reported rootedness flag of a DAG is 1 but there is not exactly one father-less node
+  refuses_unrooted     a query that needs a rooted tree (leaves-under, subtree, node / edge path, MRCA) answered on an undirected graph
+  dag_rootAt           `rootAt` of a DAG changed the nodes or the undirected edge set (ids, end points), or succeeded without making
+                       the node the root, or changed something for an absent node
+  dag_rerooted         (explored only) `rootAt(n)` succeeded on a valid DAG with a single father-less node, but the result is not a
+                       valid DAG whose single father-less node is n
+  copy_same_relations  after a copy construction / assignment the target container does not report the tables and flags of the source
+                       (observers: not the same object<->id relations, by label)
+  copy_independent     an operation on one container changed the reported state of another one; an observer holds an object
+                       that belongs to another observer's pool (`copy_independent:<map>`)
+  removes_relation     `removeSon` / `removeFather` through an observer succeeded but the relation is still in the edge table, or another
+                       edge or a node went away
+  dag_query            fathers / sons of a DAG node are not the ones of the reported edge table
   keeps_object         `setFather` / `addSon` with an edge object succeeded but the object is not the one of
                        the new link (`getEdgeLinking(father, son)`); `addSon` with a free object, two known nodes and no
                        relation yet between them (`TW.addSonReady`) did not succeed; `setFather` with an object attached
@@ -35,22 +50,62 @@ namespace Bpp.Drive.C15
 open Bpp Bpp.Proto Bpp.Graph Bpp.Drive.C14
 
 structure St where
+  /-- the selected tree container (slot `sel` of `th`, whose entry there is stale) -/
   t : T := T.empty true
   d : D := D.empty
   tw : TW := TW.init true
   /-- the implementation's previous report (tree / observer mode) -/
   prev : Option T := none
   prevW : Option TW := none
+  prevD : Option D := none
+  /-- the other containers of the case (heap operations `h.*`), the selected slot, the implementation's previous
+  report of every slot -/
+  th : TH := {}
+  dh : DH := {}
+  sel : Nat := 0
+  prevTH : List (Option T) := []
+  prevDH : List (Option D) := []
+  /-- the observer the `o.*` operations go through -/
+  osel : Nat := 0
+  isDag : Bool := false
+  /-- the DAG observer mode -/
+  dw : DW := DW.init
+  prevDW : Option DW := none
 
 def showT (t : T) : String := showGraph t.g ++ " V " ++ showBool t.valid
 def showD (d : D) : String := showGraph d.g ++ " V " ++ showBool d.valid ++ " R " ++ showBool d.rooted
 def showTW (tw : TW) : String := showWorld tw.w ++ " V " ++ showBool tw.valid
+
+def showSlots {α : Type} (f : α → String) (l : List (Option α)) : String :=
+  " # ".intercalate (l.map (fun o => match o with | some a => f a | none => "-"))
+
+/-- every slot but `skip`: consistent tables, sound caches (`check1`), and unchanged since the previous report -/
+def othersVerdict {α : Type} [BEq α] (check1 : α → Option String) (prevAll slots : List (Option α)) (skip : Option Nat) : Option String :=
+  (List.range slots.length).findSome? (fun k =>
+    if some k == skip then none else
+    match (slots[k]?).join with
+    | none => none
+    | some a =>
+      match check1 a with
+      | some c => some c
+      | none =>
+        match (prevAll[k]?).join with
+        | some p => if p != a then some "copy_independent" else none
+        | none => none)
 
 def parseT (tk : List String) : Option T :=
   let (gt, rest) := takeUntil ["V"] tk
   match parseGraph gt, rest with
   | some (g, _), ["V", v] => some { g := g, valid := v == "1" }
   | _, _ => none
+
+def parseSlots {α : Type} (f : List String → Option α) (tk : List String) : Option (List (Option α)) :=
+  (splitTok "#" tk).mapM (fun t => if t == ["-"] then some none else (f t).map some)
+
+def checkT (t : T) : Option String :=
+  match t.g.check with
+  | some c => some ("consistent:" ++ c)
+  | none => if t.valid && T.isTree t.g != .ok true then some "cache_sound" else none
 
 def parseD (tk : List String) : Option D :=
   let (gt, rest) := takeUntil ["V"] tk
@@ -104,6 +159,14 @@ def parseTW (tk : List String) : Option TW :=
   | some w, ["V", v] => some { w := w, valid := v == "1" }
   | _, _ => none
 
+/-- the report with the identity of every stored object (`l`, `l@j`, `l@?`): the world by labels, and the tables with identities -/
+def parseTWI (tk : List String) : Option (TW × List (Option IObs)) :=
+  let (wt, rest) := takeUntil ["V"] tk
+  match parseWorldI wt, rest with
+  | some (g, ios), ["V", v] =>
+    some ({ w := { g := g, obs := ios.map (fun o => o.map IObs.labels) }, valid := v == "1" }, ios)
+  | _, _ => none
+
 def showR {α : Type} (f : α → String) : TRes α → String
   | .ok a => f a
   | .exc => "exc:bpp"
@@ -132,15 +195,19 @@ def natsOf (tk : List String) : List Nat := tk.filterMap String.toNat?
 /-! ### tree mode -/
 
 /-- invariants of every report of the tree container; `extra` judges the result on the parsed report -/
-def judgeT (impl : Option (List String)) (isValidQuery : Bool) (extra : List String → T → Option String) : String × Option T :=
+def judgeT (impl : Option (List String)) (isValidQuery : Bool) (extra : List String → T → Option String) (st : St) :
+    String × Option T × List (Option T) :=
   match impl with
-  | none => ("-", none)
-  | some ["hang"] => ("FAIL:terminates", none)
-  | some [c] => if c.startsWith "crash:" then ("FAIL:no_crash", none) else ("FAIL:parse", none)
+  | none => ("-", none, [])
+  | some ["hang"] => ("FAIL:terminates", none, [])
+  | some [c] => if c.startsWith "crash:" then ("FAIL:no_crash", none, []) else ("FAIL:parse", none, [])
   | some _ =>
     match splitImpl impl with
     | some (res, stt) =>
-      match parseT stt with
+      match parseSlots parseT stt with
+      | none => ("FAIL:parse", none, [])
+      | some slots =>
+      match (slots[st.sel]?).join with
       | some ti =>
         let treeNow := T.isTree ti.g
         let resS := " ".intercalate res
@@ -153,14 +220,71 @@ def judgeT (impl : Option (List String)) (isValidQuery : Bool) (extra : List Str
             else if isValidQuery && (resS == "1" || resS == "0") && resS != showBool (isTreeRef ti.g) then "FAIL:valid_iff"
             else match extra res ti with
               | some c => "FAIL:" ++ c
-              | none => "ok"
-        (v, some ti)
-      | none => ("FAIL:parse", none)
-    | none => ("FAIL:parse", none)
+              | none =>
+                -- the other containers of the case: consistent, sound, and untouched by this operation
+                match othersVerdict checkT st.prevTH slots (some st.sel) with
+                | some c => "FAIL:" ++ c
+                | none => "ok"
+        (v, some ti, slots)
+      | none => ("FAIL:parse", none, [])
+    | none => ("FAIL:parse", none, [])
 
-def finishT (st : St) (res : String) (t' : T) (jv : String × Option T) : St × String × String :=
-  let prev := match jv.2 with | some ti => some ti | none => st.prev
-  ({ st with t := t', prev := prev }, res ++ " ; " ++ showT t', jv.1)
+def finishT (st : St) (res : String) (t' : T) (jv : St → String × Option T × List (Option T)) : St × String × String :=
+  let j := jv st
+  let prev := match j.2.1 with | some ti => some ti | none => st.prev
+  let prevTH := if j.2.2.isEmpty then st.prevTH else j.2.2
+  ({ st with t := t', prev := prev, prevTH := prevTH }, res ++ " ; " ++ showSlots showT (st.th.set st.sel t').slots, j.1)
+
+/-- heap operations on tree containers (`h.sel`, `h.copy`, `h.assign`, `h.gassign`) -/
+def stepTH (st : St) (op : List String) (impl : Option (List String)) : St × String × String :=
+  let nat (s : String) : Nat := s.toNat?.getD 0
+  let h : TH := st.th.set st.sel st.t
+  -- the verdict on the implementation's report: `target` = the slot that was written (with the slot it must now equal)
+  let judge (target : Option (Nat × Nat)) (graphOnly : Bool) : String × List (Option T) :=
+    match splitImpl impl with
+    | some (res, stt) =>
+      match parseSlots parseT stt with
+      | none => ("FAIL:parse", [])
+      | some slots =>
+        let tgt := if res == ["ok"] then target else none
+        let v :=
+          match othersVerdict checkT st.prevTH slots (tgt.map (·.1)) with
+          | some c => "FAIL:" ++ c
+          | none =>
+            match tgt with
+            | none => "ok"
+            | some (k, j) =>
+              match (slots[k]?).join, (slots[j]?).join with
+              | some a, some b =>
+                (match checkT a with
+                 | some c => "FAIL:" ++ c
+                 | none =>
+                   if (if graphOnly then a.g != b.g else a != b) then "FAIL:copy_same_relations" else "ok")
+              | _, _ => "FAIL:copy_same_relations"
+        (v, slots)
+    | none => (match impl with | none => "-" | _ => "FAIL:parse", [])
+  let fin (h' : TH) (sel' : Nat) (res : String) (jv : String × List (Option T)) : St × String × String :=
+    let t' := (h'.get sel').getD st.t
+    ({ st with th := h', sel := sel', t := t', prevTH := if jv.2.isEmpty then st.prevTH else jv.2,
+               prev := (match (jv.2[sel']?).join with | some ti => some ti | none => st.prev) },
+     res ++ " ; " ++ showSlots showT h'.slots, jv.1)
+  let okSlot (k : Nat) := decide (k < 3)
+  match op with
+  | ["h.sel", k] =>
+    if okSlot (nat k) && (h.get (nat k)).isSome then fin h (nat k) "ok" (judge none false) else fin h st.sel "bad-slot" (judge none false)
+  | ["h.copy", j, k] =>
+    if okSlot (nat j) && okSlot (nat k) && (h.get (nat j)).isSome && nat j != nat k then
+      fin (TH.step h (.copy (nat j) (nat k))) st.sel "ok" (judge (some (nat k, nat j)) false)
+    else fin h st.sel "bad-slot" (judge none false)
+  | ["h.assign", j, k] =>
+    if okSlot (nat j) && okSlot (nat k) && (h.get (nat j)).isSome && (h.get (nat k)).isSome then
+      fin (TH.step h (.assign (nat j) (nat k))) st.sel "ok" (judge (some (nat k, nat j)) false)
+    else fin h st.sel "bad-slot" (judge none false)
+  | ["h.gassign", j, k] =>
+    if okSlot (nat j) && okSlot (nat k) && (h.get (nat j)).isSome && (h.get (nat k)).isSome then
+      fin (TH.step h (.graphAssign (nat j) (nat k))) st.sel "ok" (judge (some (nat k, nat j)) true)
+    else fin h st.sel "bad-slot" (judge none false)
+  | _ => (st, "bad-op", "-")
 
 /-- a list answer `l a b c` judged by a predicate of the reference tree, when the reported graph is
 a valid rooted tree and the queried nodes are in it -/
@@ -179,10 +303,12 @@ def stepT (st : St) (op : List String) (impl : Option (List String)) : St × Str
   let okS (_ : Unit) := "ok"
   let t := st.t
   let g := t.g
-  let fuel := g.nodes.length + 2
   let none2 : List String → T → Option String := fun _ _ => none
   let mutr {α : Type} (r : GOut α × T) (f : α → String) := finishT st (gres f r.1) r.2 (judgeT impl false none2)
   let showL (l : List Nat) := "l " ++ showNats l
+  -- a query that needs a rooted tree raises on an unrooted one (theorems `*_refuses_unrooted`)
+  let refuses (spec : List String → T → Option String) : List String → T → Option String := fun res ti =>
+    if !ti.g.directed && res != ["exc:bpp"] && res != ["notvalid"] then some "refuses_unrooted" else spec res ti
   match op with
   | ["t.createNode"] => mutr t.createNode toString
   | ["t.link", a, b] => mutr (t.link (nat a) (nat b)) toString
@@ -219,6 +345,12 @@ def stepT (st : St) (op : List String) (impl : Option (List String)) : St × Str
     | .fuel => finishT st "diverges" t (judgeT impl false none2)
     | .exc => finishT st "exc:bpp" t (judgeT impl false none2)
     | .ub => finishT st "ub" t (judgeT impl false none2)
+  | ["t.setOutGroup", n] =>
+    match t.setOutGroup (nat n) with
+    | .ok r => finishT st (gres okS r.1) r.2 (judgeT impl false none2)
+    | .fuel => finishT st "diverges" t (judgeT impl false none2)
+    | .exc => finishT st "exc:bpp" t (judgeT impl false none2)
+    | .ub => finishT st "ub" t (judgeT impl false none2)
   | ["t.valid"] =>
     let (r, t') := t.isValid
     finishT st (showR showBool r) t' (judgeT impl true none2)
@@ -248,21 +380,20 @@ def stepT (st : St) (op : List String) (impl : Option (List String)) : St × Str
     finishT st res t (judgeT impl false spec)
   | ["t.subN", n] =>
     let (r, t') := t.getSubtree false (nat n)
-    finishT st (showR showL r) t' (judgeT impl false (listSpec [nat n] (fun rf l => rf.isSubtree (nat n) l) "tree_spec"))
+    finishT st (showR showL r) t' (judgeT impl false (refuses (listSpec [nat n] (fun rf l => rf.isSubtree (nat n) l) "tree_spec")))
   | ["t.subE", n] =>
     let (r, t') := t.getSubtree true (nat n)
-    finishT st (showR showL r) t' (judgeT impl false (listSpec [nat n] (fun rf l => rf.isSubtreeEdges (nat n) l) "tree_spec"))
+    finishT st (showR showL r) t' (judgeT impl false (refuses (listSpec [nat n] (fun rf l => rf.isSubtreeEdges (nat n) l) "tree_spec")))
   | ["t.leavesUnder", n] =>
     let (v, t') := t.isValid
     match v with
     | .ok true =>
-      if !t'.g.directed then finishT st "unrooted" t' (judgeT impl false none2) else
-      finishT st (showR showL (T.leavesUnder t'.g fuel (nat n) [])) t'
-        (judgeT impl false (listSpec [nat n] (fun rf l => rf.isLeavesUnder (nat n) l) "tree_spec"))
+      finishT st (showR showL (T.leavesUnderQ t'.g (nat n))) t'
+        (judgeT impl false (refuses (listSpec [nat n] (fun rf l => rf.isLeavesUnder (nat n) l) "tree_spec")))
     | .ok false => finishT st "notvalid" t' (judgeT impl false none2)
     | r => finishT st (showR showBool r) t' (judgeT impl false none2)
   | ["t.path", a, b, inc] =>
-    if g.hasNode (nat a) && g.hasNode (nat b) && (climbCycles g (nat a) || climbCycles g (nat b)) then
+    if g.directed && g.hasNode (nat a) && g.hasNode (nat b) && (climbCycles g (nat a) || climbCycles g (nat b)) then
       finishT st "skip-cycle" t (judgeT impl false none2)
     else
       let r := T.nodePath g (nat a) (nat b) (nat inc != 0)
@@ -271,9 +402,9 @@ def stepT (st : St) (op : List String) (impl : Option (List String)) : St × Str
         if nat inc != 0 then rf.isPath (nat a) (nat b) l
         else rf.nodes.any (fun m => rf.isMrca [nat a, nat b] m && !l.contains m &&
           (List.range (l.length + 1)).any (fun i => rf.isPath (nat a) (nat b) (l.take i ++ [m] ++ l.drop i)))) "tree_spec"
-      finishT st (showR showL r) t (judgeT impl false spec)
+      finishT st (showR showL r) t (judgeT impl false (refuses spec))
   | ["t.epath", a, b] =>
-    if g.hasNode (nat a) && g.hasNode (nat b) && (climbCycles g (nat a) || climbCycles g (nat b)) then
+    if g.directed && g.hasNode (nat a) && g.hasNode (nat b) && (climbCycles g (nat a) || climbCycles g (nat b)) then
       finishT st "skip-cycle" t (judgeT impl false none2)
     else
       let r := T.edgePath g (nat a) (nat b)
@@ -282,7 +413,7 @@ def stepT (st : St) (op : List String) (impl : Option (List String)) : St × Str
         rf.nodes.any (fun m => rf.isMrca [nat a, nat b] m &&
           (let p := (rf.anc (nat a)).takeWhile (· != m) ++ [m] ++ ((rf.anc (nat b)).takeWhile (· != m)).reverse
            rf.isPath (nat a) (nat b) p && rf.isEdgePath p l))) "tree_spec"
-      finishT st (showR showL r) t (judgeT impl false spec)
+      finishT st (showR showL r) t (judgeT impl false (refuses spec))
   | "t.mrca" :: ns =>
     let l := ns.map nat
     if g.directed && l.length > 1 && l.any (climbCycles g) then
@@ -298,20 +429,31 @@ def stepT (st : St) (op : List String) (impl : Option (List String)) : St × Str
             | _ => some "mrca_spec"
           else none
         | none => none
-      finishT st (showR toString r) t (judgeT impl false spec)
+      finishT st (showR toString r) t (judgeT impl false (refuses spec))
   | _ => (st, "bad-op", "-")
 
 /-! ### DAG mode -/
 
-def judgeD (impl : Option (List String)) (isValidQuery : Bool) (extra : List String → D → Option String) : String × Option D :=
+def checkD (d : D) : Option String :=
+  match d.g.check with
+  | some c => some ("consistent:" ++ c)
+  | none =>
+    if d.valid && D.isDA d.g != .ok true then some "cache_sound"
+    else if d.rooted && D.nbFatherless d.g != 1 then some "rooted_cache" else none
+
+def judgeD (impl : Option (List String)) (isValidQuery : Bool) (extra : List String → D → Option String) (st : St) :
+    String × Option D × List (Option D) :=
   match impl with
-  | none => ("-", none)
-  | some ["hang"] => ("FAIL:terminates", none)
-  | some [c] => if c.startsWith "crash:" then ("FAIL:no_crash", none) else ("FAIL:parse", none)
+  | none => ("-", none, [])
+  | some ["hang"] => ("FAIL:terminates", none, [])
+  | some [c] => if c.startsWith "crash:" then ("FAIL:no_crash", none, []) else ("FAIL:parse", none, [])
   | some _ =>
     match splitImpl impl with
     | some (res, stt) =>
-      match parseD stt with
+      match parseSlots parseD stt with
+      | none => ("FAIL:parse", none, [])
+      | some slots =>
+      match (slots[st.sel]?).join with
       | some di =>
         let daNow := D.isDA di.g
         let resS := " ".intercalate res
@@ -325,13 +467,69 @@ def judgeD (impl : Option (List String)) (isValidQuery : Bool) (extra : List Str
             else if isValidQuery && (resS == "1" || resS == "0") && di.g.directed && resS != showBool (isAcyclicRef di.g) then "FAIL:valid_iff"
             else match extra res di with
               | some c => "FAIL:" ++ c
-              | none => "ok"
-        (v, some di)
-      | none => ("FAIL:parse", none)
-    | none => ("FAIL:parse", none)
+              | none =>
+                match othersVerdict checkD st.prevDH slots (some st.sel) with
+                | some c => "FAIL:" ++ c
+                | none => "ok"
+        (v, some di, slots)
+      | none => ("FAIL:parse", none, [])
+    | none => ("FAIL:parse", none, [])
 
-def finishD (st : St) (res : String) (d' : D) (jv : String × Option D) : St × String × String :=
-  ({ st with d := d' }, res ++ " ; " ++ showD d', jv.1)
+def finishD (st : St) (res : String) (d' : D) (jv : St → String × Option D × List (Option D)) : St × String × String :=
+  let j := jv st
+  let prev := match j.2.1 with | some di => some di | none => st.prevD
+  let prevDH := if j.2.2.isEmpty then st.prevDH else j.2.2
+  ({ st with d := d', prevD := prev, prevDH := prevDH }, res ++ " ; " ++ showSlots showD (st.dh.set st.sel d').slots, j.1)
+
+/-- heap operations on DAG containers -/
+def stepDH (st : St) (op : List String) (impl : Option (List String)) : St × String × String :=
+  let nat (s : String) : Nat := s.toNat?.getD 0
+  let h : DH := st.dh.set st.sel st.d
+  let judge (target : Option (Nat × Nat)) (graphOnly : Bool) : String × List (Option D) :=
+    match splitImpl impl with
+    | some (res, stt) =>
+      match parseSlots parseD stt with
+      | none => ("FAIL:parse", [])
+      | some slots =>
+        let tgt := if res == ["ok"] then target else none
+        let v :=
+          match othersVerdict checkD st.prevDH slots (tgt.map (·.1)) with
+          | some c => "FAIL:" ++ c
+          | none =>
+            match tgt with
+            | none => "ok"
+            | some (k, j) =>
+              match (slots[k]?).join, (slots[j]?).join with
+              | some a, some b =>
+                (match checkD a with
+                 | some c => "FAIL:" ++ c
+                 | none =>
+                   if (if graphOnly then a.g != b.g else a != b) then "FAIL:copy_same_relations" else "ok")
+              | _, _ => "FAIL:copy_same_relations"
+        (v, slots)
+    | none => (match impl with | none => "-" | _ => "FAIL:parse", [])
+  let fin (h' : DH) (sel' : Nat) (res : String) (jv : String × List (Option D)) : St × String × String :=
+    let d' := (h'.get sel').getD st.d
+    ({ st with dh := h', sel := sel', d := d', prevDH := if jv.2.isEmpty then st.prevDH else jv.2,
+               prevD := (match (jv.2[sel']?).join with | some di => some di | none => st.prevD) },
+     res ++ " ; " ++ showSlots showD h'.slots, jv.1)
+  let okSlot (k : Nat) := decide (k < 3)
+  match op with
+  | ["h.sel", k] =>
+    if okSlot (nat k) && (h.get (nat k)).isSome then fin h (nat k) "ok" (judge none false) else fin h st.sel "bad-slot" (judge none false)
+  | ["h.copy", j, k] =>
+    if okSlot (nat j) && okSlot (nat k) && (h.get (nat j)).isSome && nat j != nat k then
+      fin (DH.step h (.copy (nat j) (nat k))) st.sel "ok" (judge (some (nat k, nat j)) false)
+    else fin h st.sel "bad-slot" (judge none false)
+  | ["h.assign", j, k] =>
+    if okSlot (nat j) && okSlot (nat k) && (h.get (nat j)).isSome && (h.get (nat k)).isSome then
+      fin (DH.step h (.assign (nat j) (nat k))) st.sel "ok" (judge (some (nat k, nat j)) false)
+    else fin h st.sel "bad-slot" (judge none false)
+  | ["h.gassign", j, k] =>
+    if okSlot (nat j) && okSlot (nat k) && (h.get (nat j)).isSome && (h.get (nat k)).isSome then
+      fin (DH.step h (.graphAssign (nat j) (nat k))) st.sel "ok" (judge (some (nat k, nat j)) true)
+    else fin h st.sel "bad-slot" (judge none false)
+  | _ => (st, "bad-op", "-")
 
 def stepD (st : St) (op : List String) (impl : Option (List String)) : St × String × String :=
   let nat (s : String) : Nat := s.toNat?.getD 0
@@ -356,6 +554,28 @@ def stepD (st : St) (op : List String) (impl : Option (List String)) : St × Str
   | ["d.removeFather", n, f] => mutr (d.removeFather (nat n) (nat f)) okS
   | ["d.removeSons", n] => mutr (d.removeSons (nat n)) showL
   | ["d.removeFathers", n] => mutr (d.removeFathers (nat n)) showL
+  | ["d.rootAt", n] =>
+    -- whatever happens (also when it raises half way) the nodes and the undirected edge set with its ids stay;
+    -- a call that succeeds leaves the node as the root (theorem `dag_rootAt_shape`)
+    let undirectedEdges (g : G) := g.edges.map (fun p => (p.1, min p.2.1 p.2.2, max p.2.1 p.2.2))
+    let prev := st.prevD
+    let spec : List String → D → Option String := fun res di =>
+      match prev with
+      | some p =>
+        if undirectedEdges di.g != undirectedEdges p.g || AL.keys di.g.nodes != AL.keys p.g.nodes
+           || (res == ["ok"] && di.g.root != nat n) || (res != ["ok"] && !p.g.hasNode (nat n) && di.g != p.g)
+        then some "dag_rootAt"
+        -- explored, not proved (see level_note): a valid DAG with a single father-less node, re-rooted at one of its nodes,
+        -- is again a valid DAG whose single father-less node is the new root
+        else if res == ["ok"] && p.g.hasNode (nat n) && D.isDA p.g == .ok true && D.nbFatherless p.g == 1
+                && (D.isDA di.g != .ok true || D.nbFatherless di.g != 1 || T.hasFather di.g (nat n) != some false)
+        then some "dag_rerooted" else none
+      | none => none
+    match d.rootAt (nat n) with
+    | .ok r => finishD st (gres okS r.1) r.2 (judgeD impl false spec)
+    | .fuel => finishD st "diverges" d (judgeD impl false none2)
+    | .exc => finishD st "exc:bpp" d (judgeD impl false none2)
+    | .ub => finishD st "ub" d (judgeD impl false none2)
   | ["d.valid"] =>
     let (r, d') := d.isValid
     finishD st (showR showBool r) d' (judgeD impl true none2)
@@ -374,7 +594,7 @@ def stepD (st : St) (op : List String) (impl : Option (List String)) : St × Str
   | ["d.leavesUnder", n] =>
     let (v, d') := d.isValid
     match v with
-    | .ok true => finishD st (showR showL (D.leavesUnder d'.g (d'.g.nodes.length + 2) (nat n) [])) d' (judgeD impl false none2)
+    | .ok true => finishD st (showR showL (d'.leavesUnderQ (nat n))) d' (judgeD impl false none2)
     | .ok false => finishD st "notvalid" d' (judgeD impl false none2)
     | r => finishD st (showR showBool r) d' (judgeD impl false none2)
   | ["d.qn", n] =>
@@ -412,15 +632,19 @@ def judgeW (impl : Option (List String)) (isValidQuery : Bool) (extra : List Str
   | some _ =>
     match splitImpl impl with
     | some (res, stt) =>
-      match parseTW stt with
-      | some wi =>
+      match parseTWI stt with
+      | some (wi, ios) =>
         let treeNow := T.isTree wi.w.g
         let resS := " ".intercalate res
         let v :=
           match wi.w.g.check with
           | some c => "FAIL:consistent:" ++ c
           | none =>
-            match (wi.w.getObs 0).bind (fun o => o.check wi.w.g) with
+            -- no observer holds an object of another observer's pool
+            match (List.range ios.length).findSome? (fun k => ((ios[k]?).join).bind (IObs.foreign k)) with
+            | some c => "FAIL:copy_independent:" ++ c
+            | none =>
+            match (List.range wi.w.obs.length).findSome? (fun k => (wi.w.getObs k).bind (fun o => o.check wi.w.g)) with
             | some c => "FAIL:keeps_object:obs:" ++ c
             | none =>
               if wi.valid && treeNow != .ok true then "FAIL:cache_sound"
@@ -442,22 +666,22 @@ def setFatherW (st : St) (impl : Option (List String)) (a f : Obj) (x : Option O
   let tw := st.tw
   let prev := st.prevW
   let extra : List String → TW → Option String := fun res wi =>
-    match x, wi.w.getObs 0 with
+    match x, wi.w.getObs st.osel with
     | some x', some o =>
       -- an object attached to another branch is refused and nothing changes
-      if (match prev with | some p => p.setFatherForeign 0 a x' && (res != ["exc:bpp"] || wi.w != p.w || wi.valid != p.valid) | none => false)
+      if (match prev with | some p => p.setFatherForeign st.osel a x' && (res != ["exc:bpp"] || wi.w != p.w || wi.valid != p.valid) | none => false)
       then some "keeps_object" else
       if res == ["ok"] && World.edgeLinking wi.w o f a != some (some x') then some "keeps_object" else
       (match prev with
        | some p =>
-         (match p.w.getObs 0 with
+         (match p.w.getObs st.osel with
           | some po =>
             if res == ["ok"] && po.Ng != o.Ng then some "keeps_object" else
             if res == ["ok"] && po.Eg.any (fun q => wi.w.g.hasEdge q.2 && q.1 != x' && AL.find q.1 o.Eg != some q.2) then some "keeps_object" else none
           | none => none)
        | none => none)
     | _, _ => none
-  let r := tw.setFather 0 a f x
+  let r := tw.setFather st.osel a f x
   finishW st (showW r.1) r.2 (judgeW impl false extra)
 
 def stepW (st : St) (op : List String) (impl : Option (List String)) : St × String × String :=
@@ -467,15 +691,15 @@ def stepW (st : St) (op : List String) (impl : Option (List String)) : St × Str
   let mutr (r : TW.WRes × TW) (extra : List String → TW → Option String) := finishW st (showW r.1) r.2 (judgeW impl false extra)
   -- after a successful call with an edge object `x`: the object is the one of the link father -> son
   let keeps (f s : Obj) (x : Option Obj) : List String → TW → Option String := fun res wi =>
-    match x, wi.w.getObs 0 with
+    match x, wi.w.getObs st.osel with
     | some x, some o =>
       if res == ["ok"] && World.edgeLinking wi.w o f s != some (some x) then some "keeps_object" else none
     | _, _ => none
   match op with
-  | ["o.createNode", a] => mutr (tw.createNode 0 (nat a)) none2
-  | ["o.link", a, b, x] => mutr (tw.link 0 (nat a) (nat b) (optObj x)) (keeps (nat a) (nat b) (optObj x))
-  | ["o.unlink", a, b] => mutr (tw.unlink 0 (nat a) (nat b)) none2
-  | ["o.deleteNode", a] => mutr (tw.deleteNode 0 (nat a)) none2
+  | ["o.createNode", a] => mutr (tw.createNode st.osel (nat a)) none2
+  | ["o.link", a, b, x] => mutr (tw.link st.osel (nat a) (nat b) (optObj x)) (keeps (nat a) (nat b) (optObj x))
+  | ["o.unlink", a, b] => mutr (tw.unlink st.osel (nat a) (nat b)) none2
+  | ["o.deleteNode", a] => mutr (tw.deleteNode st.osel (nat a)) none2
   | ["o.addSon", a, s, x] =>
     let prev := st.prevW
     -- with an edge object and everything it needs (judged on the implementation's previous report) the call must go through
@@ -484,16 +708,110 @@ def stepW (st : St) (op : List String) (impl : Option (List String)) : St × Str
       | some c => some c
       | none =>
         match prev, optObj x with
-        | some p, some x' => if p.addSonReady 0 (nat a) (nat s) x' && res != ["ok"] then some "keeps_object" else none
+        | some p, some x' => if p.addSonReady st.osel (nat a) (nat s) x' && res != ["ok"] then some "keeps_object" else none
         | _, _ => none
-    mutr (tw.addSon 0 (nat a) (nat s) (optObj x)) extra
+    mutr (tw.addSon st.osel (nat a) (nat s) (optObj x)) extra
   | ["o.setFatherCur", a, f] =>
     -- with the object of the branch to the current father (none: without object)
-    let x : Option Obj := match tw.w.getObs 0 with
+    let x : Option Obj := match tw.w.getObs st.osel with
       | some ob => (tw.edgeToFather ob (nat a)).join
       | none => none
     setFatherW st impl (nat a) (nat f) x
   | ["o.setFather", a, f, x] => setFatherW st impl (nat a) (nat f) (optObj x)
+  | ["o.sel", k] =>
+    if nat k < 3 && (tw.w.getObs (nat k)).isSome then
+      let r := finishW st "ok" tw (judgeW impl false none2)
+      ({ r.1 with osel := nat k }, r.2)
+    else finishW st "bad-slot" tw (judgeW impl false none2)
+  | [o, j, k] =>
+    if o == "o.copy" || o == "o.clone" || o == "o.assign" then
+      let j := nat j
+      let k := nat k
+      -- the copy has the relations of the source (by label) and nothing else changed
+      let prev := st.prevW
+      let extra : List String → TW → Option String := fun res wi =>
+        match prev with
+        | some p =>
+          if wi.w.g != p.w.g || wi.valid != p.valid then some "copy_independent" else
+          if (List.range 3).any (fun i => i != k && wi.w.getObs i != p.w.getObs i) then some "copy_independent" else
+          if res.head? == some "ok" && j != k then
+            (match wi.w.getObs j, wi.w.getObs k with
+             | some oj, some ok => if oj.sameRelations ok && ok.sameRelations oj then none else some "copy_same_relations"
+             | _, _ => some "copy_same_relations")
+          else none
+        | none => none
+      if j ≥ 3 || k ≥ 3 || (tw.w.getObs j).isNone || (o == "o.assign" && (tw.w.getObs k).isNone) || (o != "o.assign" && (j == k || k == 0)) then
+        finishW st "bad-slot" tw (judgeW impl false none2)
+      else
+        let r := if o == "o.copy" then tw.copyObs j k else if o == "o.clone" then tw.cloneObs j k else tw.assignObs j k
+        let res := match r.1 with
+          | .ok => if o == "o.assign" && j == k then "ok self" else "ok shared 1"
+          | x => showW x
+        let fin := finishW st res r.2 (judgeW impl false extra)
+        -- the selected observer may have been replaced: it stays selected
+        fin
+    else if o == "o.removeSon" then
+      let prev := st.prevW
+      let extra : List String → TW → Option String := fun res wi =>
+        match prev with
+        | some p =>
+          (match p.w.getObs st.osel with
+           | some po =>
+             match AL.find (nat j) po.Ng, AL.find (nat k) po.Ng with
+             | some ia, some ib => if res == ["ok"] && !relationRemoved p.w.g wi.w.g ia ib then some "removes_relation" else none
+             | _, _ => none
+           | none => none)
+        | none => none
+      mutr (tw.removeSon st.osel (nat j) (nat k)) extra
+    else if o == "o.qp" then
+      let res := match tw.w.getObs st.osel with
+        | some ob => "linking " ++ showOpt ((World.edgeLinking tw.w ob (nat j) (nat k)).map showOO)
+        | none => "ub"
+      finishW st res tw (judgeW impl false none2)
+    else if o == "o.qt" then
+      -- the object-level queries of a valid rooted tree
+      let (v, tw1) := tw.isValid
+      if v == .exc then finishW st "exc:bpp" tw1 (judgeW impl false none2) else
+      if v != .ok true || !tw1.w.g.directed then finishW st "notrooted" tw1 (judgeW impl false none2) else
+      let a := nat j
+      let b := nat k
+      let sh (r : TRes (List Obj)) : String := match r with | .ok l => showObjs l | .exc => "exc:bpp" | .fuel => "diverges" | .ub => "ub"
+      match tw1.w.getObs st.osel with
+      | none => finishW st "ub" tw1 (judgeW impl false none2)
+      | some ob =>
+        let res := s!"hf {showOpt ((tw1.hasFatherObj ob a).map showBool)} ns {showOpt ((tw1.nbSonsObj ob a).map toString)} " ++
+          s!"lu {sh (tw1.leavesUnderObj ob a)} sn {sh (tw1.subtreeNodesObj ob a)} se {sh (tw1.subtreeEdgesObj ob a)} " ++
+          s!"np {sh (tw1.nodePathObj ob a b)} ep {sh (tw1.edgePathObj ob a b)} " ++
+          s!"mr {match tw1.mrcaObj ob [a, b] with | .ok m => showOO m | .exc => "exc:bpp" | .fuel => "diverges" | .ub => "ub"}"
+        -- against the reference tree of the reported graph, when every node carries an object of the observer
+        let spec : List String → TW → Option String := fun res wi =>
+          match refOf wi.w.g, wi.w.getObs st.osel with
+          | some rf, some o =>
+            match AL.find a o.Ng, AL.find b o.Ng with
+            | some ia, some ib =>
+              if o.Ng.length != rf.nodes.length then none else
+              let ids (l : List String) : Option (List Nat) := l.mapM (fun x => x.toNat?.bind (fun y => AL.find y o.Ng))
+              let (_, r1) := takeUntil ["lu"] res
+              let (lu, r2) := takeUntil ["sn"] (r1.drop 1)
+              let (sn, r3) := takeUntil ["se"] (r2.drop 1)
+              let (_, r4) := takeUntil ["np"] (r3.drop 1)
+              let (np, r5) := takeUntil ["ep"] (r4.drop 1)
+              let (_, r6) := takeUntil ["mr"] (r5.drop 1)
+              let mr := r6.drop 1
+              if (match ids lu with | some l => !rf.isLeavesUnder ia l | none => true) then some "tree_spec" else
+              if (match ids sn with | some l => !rf.isSubtree ia l | none => true) then some "tree_spec" else
+              if (match ids np with | some l => !rf.isPath ia ib l | none => true) then some "tree_spec" else
+              if (match ids mr with | some [m] => !rf.isMrca [ia, ib] m | _ => true) then some "mrca_spec" else none
+            | _, _ => none
+          | _, _ => none
+        finishW st res tw1 (judgeW impl false spec)
+    else (st, "bad-op", "-")
+  | ["o.removeSons", a] =>
+    let r := tw.removeSons st.osel (nat a)
+    let res := match r.1, r.2.1 with
+      | some l, _ => "l " ++ showObjs l
+      | none, x => showW x
+    finishW st res r.2.2 (judgeW impl false none2)
   | ["o.rootAt", a] =>
     let prev := st.prevW
     -- re-rooting changes no association
@@ -501,7 +819,7 @@ def stepW (st : St) (op : List String) (impl : Option (List String)) : St × Str
       match prev with
       | some p => if p.w.obs != wi.w.obs then some "keeps_object" else none
       | none => none
-    match tw.rootAt 0 (nat a) with
+    match tw.rootAt st.osel (nat a) with
     | .ok r => finishW st (showW r.1) r.2 (judgeW impl false extra)
     | .fuel => finishW st "diverges" tw (judgeW impl false none2)
     | .exc => finishW st "exc:bpp" tw (judgeW impl false none2)
@@ -511,31 +829,209 @@ def stepW (st : St) (op : List String) (impl : Option (List String)) : St × Str
     finishW st (showR showBool r) tw' (judgeW impl true none2)
   | ["o.qn", a] =>
     let o (x : Option String) := showOpt x
-    let res := match tw.w.getObs 0 with
+    let res := match tw.w.getObs st.osel with
       | some ob =>
         s!"fa {o ((tw.fatherOf ob (nat a)).map showOO)} ef {o ((tw.edgeToFather ob (nat a)).map showOO)} " ++
         s!"sons {o ((World.nodeQuery tw.w ob (nat a) (fun g n => g.outNeighbors n) false).map showObjs)} " ++
         s!"br {o ((World.nodeQuery tw.w ob (nat a) (fun g n => g.outEdges n) true).map showObjs)}"
       | none => "ub"
     finishW st res tw (judgeW impl false none2)
-  | ["o.qp", a, b] =>
-    let res := match tw.w.getObs 0 with
-      | some ob => "linking " ++ showOpt ((World.edgeLinking tw.w ob (nat a) (nat b)).map showOO)
+  | _ => (st, "bad-op", "-")
+
+/-! ### DAG observer mode -/
+
+def showDW (dw : DW) : String := showWorld dw.w ++ " V " ++ showBool dw.valid ++ " R " ++ showBool dw.rooted
+
+def parseDWI (tk : List String) : Option (DW × List (Option IObs)) :=
+  let (wt, rest) := takeUntil ["V"] tk
+  match parseWorldI wt, rest with
+  | some (g, ios), ["V", v, "R", r] =>
+    some ({ w := { g := g, obs := ios.map (fun o => o.map IObs.labels) }, valid := v == "1", rooted := r == "1" }, ios)
+  | _, _ => none
+
+def judgeDW (impl : Option (List String)) (isValidQuery : Bool) (extra : List String → DW → Option String) : String × Option DW :=
+  match impl with
+  | none => ("-", none)
+  | some ["hang"] => ("FAIL:terminates", none)
+  | some [c] => if c.startsWith "crash:" then ("FAIL:no_crash", none) else ("FAIL:parse", none)
+  | some _ =>
+    match splitImpl impl with
+    | some (res, stt) =>
+      match parseDWI stt with
+      | some (wi, ios) =>
+        let resS := " ".intercalate res
+        let v :=
+          match checkD wi.toD with
+          | some c => "FAIL:" ++ c
+          | none =>
+            match (List.range ios.length).findSome? (fun k => ((ios[k]?).join).bind (IObs.foreign k)) with
+            | some c => "FAIL:copy_independent:" ++ c
+            | none =>
+            match (List.range wi.w.obs.length).findSome? (fun k => (wi.w.getObs k).bind (fun o => o.check wi.w.g)) with
+            | some c => "FAIL:keeps_object:obs:" ++ c
+            | none =>
+              if isValidQuery && resS != showR showBool (D.isDA wi.w.g) then "FAIL:valid_answer"
+              else if isValidQuery && (resS == "1" || resS == "0") && wi.w.g.directed && resS != showBool (isAcyclicRef wi.w.g) then "FAIL:valid_iff"
+              else match extra res wi with
+                | some c => "FAIL:" ++ c
+                | none => "ok"
+        (v, some wi)
+      | none => ("FAIL:parse", none)
+    | none => ("FAIL:parse", none)
+
+def finishDW (st : St) (res : String) (dw' : DW) (jv : String × Option DW) : St × String × String :=
+  let prev := match jv.2 with | some wi => some wi | none => st.prevDW
+  ({ st with dw := dw', prevDW := prev }, res ++ " ; " ++ showDW dw', jv.1)
+
+def stepDW (st : St) (op : List String) (impl : Option (List String)) : St × String × String :=
+  let nat (s : String) : Nat := s.toNat?.getD 0
+  let dw := st.dw
+  let k := st.osel
+  let none2 : List String → DW → Option String := fun _ _ => none
+  let mutr (r : TW.WRes × DW) (extra : List String → DW → Option String) := finishDW st (showW r.1) r.2 (judgeDW impl false extra)
+  -- after a successful call with an edge object `x`: the object is the one of the relation father -> son
+  let keeps (f s : Obj) (x : Option Obj) : List String → DW → Option String := fun res wi =>
+    match x, wi.w.getObs k with
+    | some x, some o =>
+      if res == ["ok"] && World.edgeLinking wi.w o f s != some (some x) then some "keeps_object" else none
+    | _, _ => none
+  let sh (r : TRes (List Obj)) : String := match r with | .ok l => showObjs l | .exc => "exc:bpp" | .fuel => "diverges" | .ub => "ub"
+  let o (x : Option String) := showOpt x
+  -- after a successful removal of the relation father -> son (objects): it is gone, the others are there
+  let removed (f s : Obj) : List String → DW → Option String := fun res wi =>
+    match st.prevDW with
+    | some p =>
+      (match p.w.getObs k with
+       | some po =>
+         match AL.find f po.Ng, AL.find s po.Ng with
+         | some ia, some ib => if res == ["ok"] && !relationRemoved p.w.g wi.w.g ia ib then some "removes_relation" else none
+         | _, _ => none
+       | none => none)
+    | none => none
+  match op with
+  | ["w.sel", j] =>
+    if nat j < 3 && (dw.w.getObs (nat j)).isSome then
+      let r := finishDW st "ok" dw (judgeDW impl false none2)
+      ({ r.1 with osel := nat j }, r.2)
+    else finishDW st "bad-slot" dw (judgeDW impl false none2)
+  | ["w.createNode", a] => mutr (dw.createNode k (nat a)) none2
+  | ["w.link", a, b, x] => mutr (dw.link k (nat a) (nat b) (optObj x)) (keeps (nat a) (nat b) (optObj x))
+  | ["w.unlink", a, b] => mutr (dw.unlink k (nat a) (nat b)) none2
+  | ["w.deleteNode", a] => mutr (dw.deleteNode k (nat a)) none2
+  | ["w.addFather", n, f, x] => mutr (dw.addFather k (nat n) (nat f) (optObj x)) (keeps (nat f) (nat n) (optObj x))
+  | ["w.addSon", n, s, x] => mutr (dw.addSon k (nat n) (nat s) (optObj x)) (keeps (nat n) (nat s) (optObj x))
+  | ["w.removeFather", n, f] => mutr (dw.removeFather k (nat n) (nat f)) (removed (nat f) (nat n))
+  | ["w.removeSon", n, s] => mutr (dw.removeSon k (nat n) (nat s)) (removed (nat n) (nat s))
+  | ["w.removeFathers", n] =>
+    let r := dw.removeAll k (nat n) true
+    finishDW st (match r.1, r.2.1 with | some l, _ => "l " ++ showObjs l | none, x => showW x) r.2.2 (judgeDW impl false none2)
+  | ["w.removeSons", n] =>
+    let r := dw.removeAll k (nat n) false
+    finishDW st (match r.1, r.2.1 with | some l, _ => "l " ++ showObjs l | none, x => showW x) r.2.2 (judgeDW impl false none2)
+  | ["w.rootAt", a] =>
+    let prev := st.prevDW
+    let undirectedEdges (g : G) := g.edges.map (fun p => (p.1, min p.2.1 p.2.2, max p.2.1 p.2.2))
+    -- re-rooting changes no association, no node, no undirected edge
+    let extra : List String → DW → Option String := fun _ wi =>
+      match prev with
+      | some p =>
+        if p.w.obs != wi.w.obs then some "keeps_object"
+        else if undirectedEdges wi.w.g != undirectedEdges p.w.g || AL.keys wi.w.g.nodes != AL.keys p.w.g.nodes then some "dag_rootAt"
+        else none
+      | none => none
+    match dw.rootAt k (nat a) with
+    | .ok r => finishDW st (showW r.1) r.2 (judgeDW impl false extra)
+    | .fuel => finishDW st "diverges" dw (judgeDW impl false none2)
+    | .exc => finishDW st "exc:bpp" dw (judgeDW impl false none2)
+    | .ub => finishDW st "ub" dw (judgeDW impl false none2)
+  | ["w.valid"] =>
+    let (r, dw') := dw.isValid
+    finishDW st (showR showBool r) dw' (judgeDW impl true none2)
+  | ["w.rooted"] =>
+    let (r, dw') := dw.isRooted
+    let spec : List String → DW → Option String := fun res wi =>
+      if res != [showBool (decide (D.nbFatherless wi.w.g ≤ 1))] then some "rooted_answer" else none
+    finishDW st (showBool r) dw' (judgeDW impl false spec)
+  | ["w.qn", a] =>
+    let res := match dw.w.getObs k with
+      | some ob =>
+        s!"hf {o (((AL.find (nat a) ob.Ng).bind (T.hasFather dw.w.g)).map showBool)} fa {o ((dw.fathersObj ob (nat a)).map showObjs)} " ++
+        s!"nf {o ((dw.nbFathersObj ob (nat a)).map toString)} sons {o ((dw.sonsObj ob (nat a)).map showObjs)} ns {o ((dw.nbSonsObj ob (nat a)).map toString)}"
       | none => "ub"
-    finishW st res tw (judgeW impl false none2)
+    -- fathers and sons, as objects, against the edge table of the report (when every node carries an object of the observer)
+    let spec : List String → DW → Option String := fun res wi =>
+      match wi.w.getObs k with
+      | some ob =>
+        match AL.find (nat a) ob.Ng with
+        | some ia =>
+          if ob.Ng.length != wi.w.g.nodes.length then none else
+          let ids (l : List String) : Option (List Nat) := l.mapM (fun x => x.toNat?.bind (fun y => AL.find y ob.Ng))
+          let (_, r1) := takeUntil ["fa"] res
+          let (fa, r2) := takeUntil ["nf"] (r1.drop 1)
+          let (_, r3) := takeUntil ["sons"] r2
+          let (sons, _) := takeUntil ["ns"] (r3.drop 1)
+          let tops := (wi.w.g.edges.filter (fun p => p.2.2 == ia)).map (·.2.1)
+          let bots := (wi.w.g.edges.filter (fun p => p.2.1 == ia)).map (·.2.2)
+          if (match ids fa with | some l => !l.isPerm tops | none => true) || (match ids sons with | some l => !l.isPerm bots | none => true)
+          then some "dag_query" else none
+        | none => none
+      | none => none
+    finishDW st res dw (judgeDW impl false spec)
+  | ["w.qe", x] =>
+    let res := match dw.w.getObs k with
+      | some ob => s!"son {o ((dw.sonOfEdge ob (nat x)).map showOO)} fa {o ((dw.fatherOfEdge ob (nat x)).map showOO)}"
+      | none => "ub"
+    finishDW st res dw (judgeDW impl false none2)
+  | ["w.below", a] =>
+    match dw.w.getObs k with
+    | none => finishDW st "ub" dw (judgeDW impl false none2)
+    | some ob =>
+      let (bn, dw1) := dw.belowObj ob (nat a) false
+      let (be, dw2) := dw1.belowObj ob (nat a) true
+      let (v, dw3) := dw2.isValid
+      let lu := if v == .ok true then sh (dw3.leavesUnderObj ob (nat a)) else "notvalid"
+      finishDW st s!"bn {sh bn} be {sh be} lu {lu}" dw3 (judgeDW impl false none2)
+  | [c, j, i] =>
+    if c == "w.copy" || c == "w.clone" || c == "w.assign" then
+      let j := nat j
+      let i := nat i
+      let prev := st.prevDW
+      let extra : List String → DW → Option String := fun res wi =>
+        match prev with
+        | some p =>
+          if wi.w.g != p.w.g || wi.valid != p.valid || wi.rooted != p.rooted then some "copy_independent" else
+          if (List.range 3).any (fun m => m != i && wi.w.getObs m != p.w.getObs m) then some "copy_independent" else
+          if res.head? == some "ok" && j != i then
+            (match wi.w.getObs j, wi.w.getObs i with
+             | some oj, some oi => if oj.sameRelations oi && oi.sameRelations oj then none else some "copy_same_relations"
+             | _, _ => some "copy_same_relations")
+          else none
+        | none => none
+      if j ≥ 3 || i ≥ 3 || (dw.w.getObs j).isNone || (c == "w.assign" && (dw.w.getObs i).isNone) || (c != "w.assign" && (j == i || i == 0)) then
+        finishDW st "bad-slot" dw (judgeDW impl false none2)
+      else
+        let r := if c == "w.copy" then dw.copyObs j i else if c == "w.clone" then dw.cloneObs j i else dw.assignObs j i
+        let res := match r.1 with
+          | .ok => if c == "w.assign" && j == i then "ok self" else "ok shared 1"
+          | x => showW x
+        finishDW st res r.2 (judgeDW impl false extra)
+    else (st, "bad-op", "-")
   | _ => (st, "bad-op", "-")
 
 def step (st : St) (op : List String) (impl : Option (List String)) : St × String × String :=
   match op with
   | o :: _ =>
-    if o.startsWith "d." then stepD st op impl
+    if o.startsWith "h." then (if st.isDag then stepDH st op impl else stepTH st op impl)
+    else if o.startsWith "w." then stepDW st op impl
+    else if o.startsWith "d." then stepD st op impl
     else if o.startsWith "o." then stepW st op impl
     else stepT st op impl
   | [] => (st, "bad-op", "-")
 
 def init (tk : List String) : St :=
   let kind := tk[1]?.getD "dir"
-  { t := T.empty (kind != "undir"), d := D.empty, tw := TW.init (kind != "obsundir"), prev := none, prevW := none }
+  { t := T.empty (kind != "undir"), d := D.empty, tw := TW.init (kind != "obsundir"), prev := none, prevW := none, prevD := none,
+    isDag := kind == "dag" }
 
 def machine : Machine St := { init := init, step := step }
 
